@@ -5,6 +5,7 @@
 #include <memory>
 #include <iterator>
 #include <set>
+#include <string>
 
 namespace vk {
 
@@ -12,7 +13,8 @@ struct PtrStats { long derefs = 0, oob = 0, null_deref = 0, mixed = 0, released 
 // blocks handed back to the checking allocator and not handed out again: a pointer whose provenance is such a block must not be dereferenced
 inline std::set<std::pair<std::uintptr_t, std::uintptr_t>>& released_blocks() { static std::set<std::pair<std::uintptr_t, std::uintptr_t>> s; return s; }
 inline PtrStats& pstats() { static PtrStats s; return s; }
-inline void ptr_violation(char const* sym, std::string const& detail) { if(st().case_viol == 0) violation(std::string("C11:checked_ptr:") + sym, detail, false); }
+// one record per (case, symptom): a symptom that is a recorded finding must not hide a different one later in the same case
+inline void ptr_violation(char const* sym, std::string const& detail) { static L last_case = -2; static std::set<std::string> seen; if(st().cur_case != last_case) { last_case = st().cur_case; seen.clear(); } if(seen.size() < 8 && seen.insert(sym).second) violation(std::string("C11:checked_ptr:") + sym, detail, false); }
 
 template<class T, bool CHK> struct falloc;
 
